@@ -30,14 +30,57 @@ def parseDesc (s : String) : Option Desc :=
   | ["nottoml"] => some .notToml
   | _ => none
 
-def bit : Char → Option Bool
-  | '0' => some false | '1' => some true | 'e' => some true   -- 'e': set to the empty string, still present
+/-- bytes of a variable's value as the harness sets them → what the process sees: text when they are valid UTF-8, raw bytes
+otherwise. A value cannot contain NUL (it could not be put into an environment). -/
+def bytesToVal (b : Bytes) : Option EnvVal :=
+  if b.any (fun x => x = 0 ∨ x > 255) then none
+  else match String.fromUTF8? (ByteArray.mk (b.map Nat.toUInt8).toArray) with
+    | some s => some (.text s)
+    | none => some (.raw b)
+
+/-- `-` = unset, `=<hex>` = set to these bytes (`=` alone: set to the empty string) -/
+def parseVal (tok : String) : Option (Option EnvVal) :=
+  if tok = "-" then some none
+  else if tok.startsWith "=" then (hexDecode (tok.drop 1).toString).bind (fun b => (bytesToVal b).map some)
+  else none
+
+/-- CNB_BUILDPACK_DIR: `-` = unset, `@<kind>` = set to the directory that holds buildpack.toml, written in one of several
+ways (see harness/src/bin/c05.rs); the path itself is a temporary one, so the text is symbolic. `@nonutf8`: the directory's
+name is not valid UTF-8. -/
+def bpKinds : List String := ["plain", "space", "uni", "trail", "dotdot", "sym", "rel", "empty"]
+
+def parseBpDir (tok : String) : Option (Option EnvVal) :=
+  if tok = "-" then some none
+  else if tok = "@nonutf8" then some (some (.raw [255]))
+  else if tok.startsWith "@" ∧ bpKinds.contains (tok.drop 1).toString then some (some (.text ("$BP" ++ tok)))
+  else none
+
+def varNames : List String :=
+  ["CNB_BUILDPACK_DIR", "CNB_TARGET_OS", "CNB_TARGET_ARCH", "CNB_TARGET_ARCH_VARIANT", "CNB_TARGET_DISTRO_NAME", "CNB_TARGET_DISTRO_VERSION"]
+
+/-- `+NAME=<hex>`: another `CNB_*` variable, one the runtime does not read (no dimension of the model) -/
+def extraOk (tok : String) : Bool :=
+  match (tok.drop 1).toString.splitOn "=" with
+  | [name, hex] =>
+    tok.startsWith "+" && name.startsWith "CNB_" && !varNames.contains name &&
+      name.toList.all (fun c => c.isUpper || c.isDigit || c = '_') &&
+      (match hexDecode hex with | some b => (bytesToVal b).isSome | none => false)
+  | _ => false
+
+/-- the environment: six comma-separated tokens (buildpack dir, os, arch, arch variant, distro name, distro version), then
+any number of extra variables -/
+def parseVars (s : String) : Option Vars :=
+  match s.splitOn "," with
+  | bp :: os :: arch :: variant :: dname :: dver :: extras =>
+    if !extras.all extraOk then none else
+    match parseBpDir bp, parseVal os, parseVal arch, parseVal variant, parseVal dname, parseVal dver with
+    | some a, some b, some c, some d, some e, some f => some ⟨a, b, c, d, e, f⟩
+    | _, _, _, _, _, _ => none
   | _ => none
 
-def parseVars (s : String) : Option Vars :=
-  match s.toList.map bit with
-  | [some a, some b, some c, some d, some e, some f] => some ⟨a, b, c, d, e, f⟩
-  | _ => none
+/-- a buildpack directory given relative to the working directory needs a working directory -/
+def bpDirCtxOk (vars ctx : String) : Bool :=
+  !(ctx.startsWith "gone" ∧ (vars.startsWith "@rel," ∨ vars.startsWith "@empty,"))
 
 def parsePre : Char → Option Pre
   | 'a' => some .absent | 'f' => some .file | 'd' => some .dir | _ => none
@@ -111,7 +154,7 @@ def layoutOk (link ctx : String) : Bool :=
 def parseInv (fields : List String) : Option Inv :=
   match fields with
   | [exe, nargs, desc, vars, ctx, dbeh, bbeh, pre, link] =>
-    if !(layoutOk link ctx) then none else
+    if !(layoutOk link ctx) || !(bpDirCtxOk vars ctx) then none else
     match parseExe exe, nargs.toNat?, parseDesc desc, parseVars vars, ctx.splitOn "/", parseDbeh dbeh, parseBbeh bbeh, pre.splitOn "/" with
     | some exe, some nargs, some desc, some vars, [cwd, plat, planIn], some dbeh, some bbeh, [pp, lp, sp, bp, lp3] =>
       let cwd? : Option Bool := if cwd = "ok" then some true else if cwd = "gone" then some false else none
